@@ -53,13 +53,13 @@ func ZZ_C14_fp25519_asm_add_sub() {
 	}
 }
 
-//zz: prop=C14 tier=quick backend=lia timeout=600
+//zz: prop=C14 also=C12 tier=quick backend=lia timeout=600
 func ZZ_C14_fp25519_asm_mul_legacy() { zzAsmBinop("mulAmd64", false) }
 
-//zz: prop=C14 tier=quick backend=lia timeout=600
+//zz: prop=C14 also=C12 tier=quick backend=lia timeout=600
 func ZZ_C14_fp25519_asm_mul_bmi2adx() { zzAsmBinop("mulAmd64", true) }
 
-//zz: prop=C14 tier=quick backend=lia timeout=600
+//zz: prop=C14 also=C12 tier=quick backend=lia timeout=600
 func ZZ_C14_fp25519_asm_sqr() {
 	feature := zzPick("hasBmi2Adx", 0, 1) == 1
 	x, z := zzElt("x"), new(Elt)
